@@ -122,6 +122,34 @@ Theorem dirichlet_distance_monotone k adj border temps h d :
 Proof. exact (dirichlet_core_nonexpansive k adj border temps h d). Qed.
 Print Assumptions dirichlet_distance_monotone.
 
+(** The limit: on a graph in which every node reaches the boundary along edges of positive weight (in
+    particular a connected undirected graph with a non-empty seed set), the values computed by Dirichlet
+    converge, as n_iter grows, to the harmonic function h (unique by [harmonic_unique]): for every eps > 0
+    there is N such that for every n_iter >= N all values are within eps of h.  The existence of h is a
+    hypothesis here; the harness computes h by exact rational elimination and establishes [harmonic] for
+    each tested case through [harmonic_check_sound]. *)
+Theorem dirichlet_converges adj border temps h :
+  wf_rows (length adj) adj -> connected adj ->
+  (exists s, s < length adj /\ nthb border s = true) ->
+  harmonic adj border temps h ->
+  forall eps, (0 < eps)%Q -> exists N, forall k, N <= k ->
+    dist_le (length adj) (dirichlet_core k adj border temps) h eps.
+Proof. exact (dirichlet_converges_connected adj border temps h). Qed.
+Print Assumptions dirichlet_converges.
+
+Theorem dirichlet_converges_reach adj border temps h :
+  wf_rows (length adj) adj -> reaches_border adj border ->
+  harmonic adj border temps h ->
+  forall eps, (0 < eps)%Q -> exists N, forall k, N <= k ->
+    dist_le (length adj) (dirichlet_core k adj border temps) h eps.
+Proof. exact (dirichlet_converges_lemma adj border temps h). Qed.
+Print Assumptions dirichlet_converges_reach.
+
+Theorem harmonic_check_sound adj border temps f :
+  harmonic_checkb adj border temps f = true -> harmonic adj border temps f.
+Proof. exact (harmonic_checkb_sound adj border temps f). Qed.
+Print Assumptions harmonic_check_sound.
+
 (** Non-vacuity: a weighted undirected path-with-chord on 4 nodes, seeds at nodes 0 (temperature 0) and 3
     (temperature 3): the hypotheses of the theorems hold, both models run, the Dirichlet iterates stay in
     [0, 3], and the harmonic solution (0, 7/5, 13/5, 3) is accepted by the executable checker. *)
@@ -157,4 +185,29 @@ Proof.
   - intros i Hi B. destruct i as [|[|[|[|i]]]]; simpl in Hi; try lia; simpl in B; try discriminate;
       vm_compute; reflexivity.
   - repeat split; vm_compute; reflexivity.
+Qed.
+
+(** The example graph is connected (every node is adjacent to node 1) and (0, 7/5, 13/5, 3) is harmonic on
+    it, so [harmonic_unique] and [dirichlet_converges] apply to it with a non-empty boundary. *)
+Example c14_connected_harmonic :
+  connected ex_adj /\
+  (exists s, s < length ex_adj /\ nthb (map is_seed ex_seeds) s = true) /\
+  harmonic ex_adj (map is_seed ex_seeds) ex_seeds [0; (7 # 5); (13 # 5); 3]%Q.
+Proof.
+  split; [|split].
+  - assert (E : forall a b w, In (b, w) (wrow_of ex_adj a) -> (0 < w)%Q -> edge ex_adj a b)
+      by (intros a b w H1 H2; exists w; split; assumption).
+    intros i j Hi Hj. simpl in Hi, Hj. apply (path_trans ex_adj i 1 j).
+    + destruct i as [|[|[|[|i]]]]; try lia.
+      * apply (path_step ex_adj 0 1 1); [apply (E 0 1 2%Q); [simpl; tauto|lra]|apply path_refl].
+      * apply path_refl.
+      * apply (path_step ex_adj 2 1 1); [apply (E 2 1 1%Q); [simpl; tauto|lra]|apply path_refl].
+      * apply (path_step ex_adj 3 1 1); [apply (E 3 1 1%Q); [simpl; tauto|lra]|apply path_refl].
+    + destruct j as [|[|[|[|j]]]]; try lia.
+      * apply (path_step ex_adj 1 0 0); [apply (E 1 0 2%Q); [simpl; tauto|lra]|apply path_refl].
+      * apply path_refl.
+      * apply (path_step ex_adj 1 2 2); [apply (E 1 2 1%Q); [simpl; tauto|lra]|apply path_refl].
+      * apply (path_step ex_adj 1 3 3); [apply (E 1 3 1%Q); [simpl; tauto|lra]|apply path_refl].
+  - exists 0. split; [simpl; lia|vm_compute; reflexivity].
+  - apply harmonic_check_sound. vm_compute. reflexivity.
 Qed.
